@@ -65,12 +65,14 @@ MIN_EVENTS = {
     'quick': {'requests_judged': 1800, 'requests_answered_once': 1500, 'non_requests_judged': 1700,
               'unknown_opcodes_judged': 800, 'mtu_checks': 4000, 'indications_seen': 400, 'notifications_seen': 2000,
               'opcodes_swept': 256, 'eatt_requests': 1800, 'server_pdus_exactly_mtu': 1400, 'sequences': 600,
-              'eatt_exchange_mtu_probes': 20, 'reconnections_after_raised_mtu': 40, 'notify_calls_after_reconnect': 600},
+              'eatt_exchange_mtu_probes': 20, 'reconnections_after_raised_mtu': 40, 'notify_calls_after_reconnect': 600,
+              'eatt_bearer_closed_during_outstanding_indication': 15, 'exchange_mtu_below_23_sent': 10},
     'thorough': {'requests_judged': 72000, 'requests_answered_once': 60000, 'non_requests_judged': 68000,
                  'unknown_opcodes_judged': 32000, 'mtu_checks': 160000, 'indications_seen': 16000,
                  'notifications_seen': 80000, 'opcodes_swept': 10240, 'eatt_requests': 72000,
                  'server_pdus_exactly_mtu': 56000, 'sequences': 24000, 'eatt_exchange_mtu_probes': 800,
-                 'reconnections_after_raised_mtu': 400, 'notify_calls_after_reconnect': 6000},
+                 'reconnections_after_raised_mtu': 400, 'notify_calls_after_reconnect': 6000,
+                 'eatt_bearer_closed_during_outstanding_indication': 150, 'exchange_mtu_below_23_sent': 100},
 }
 CASE_TIMEOUT = 300
 
@@ -516,6 +518,10 @@ async def sweep_case(case, r: R):
             bodies = [b'', bytes([rng.randrange(256)])] + [
                 bytes(rng.randrange(256) for _ in range(n)) for n in (2, 4, 6, 22, 600)]
             pdus = [(bytes([op]) + b, shape_label(bytes([op]) + b) or 'random-body') for b in bodies]
+            if op == ra.EXCHANGE_MTU_REQ:
+                # Client Rx MTU values below the minimum are still requests: one reply each
+                pdus += [(ra.exchange_mtu(v_), 'below-23') for v_ in (0, 1, 22)]
+                r.ev('exchange_mtu_below_23_sent', 3)
             v, vl = valid_form(g, op, mtu)
             if v is not None:
                 pdus.append((v, vl))
@@ -604,8 +610,12 @@ async def notify_case(case, r: R):
              and ra.allowed_write(cccd_of(hs, m).perm, enc, auth)]
     rng.shuffle(chars)
     server = hs.server
+    closed_bearers = []
     for m in chars[:4]:
         cccd = cccd_of(hs, m)
+        for cb in closed_bearers:
+            if cb in bearers:
+                bearers.remove(cb)
         subscribed = {}
         for b in bearers:
             bits = rng.choice([1, 2, 3, 3])
@@ -639,6 +649,10 @@ async def notify_case(case, r: R):
         for bb in bearers:
             bb.pairing.expected_server_initiated = 0
         # --- concurrent indications, confirmations withheld ------------------------------
+        for cb in closed_bearers:
+            if cb in bearers:
+                bearers.remove(cb)
+                subscribed.pop(cb, None)
         n_ind = rng.choice([2, 3, 4])
         lens = [rng.choice([b.pairing.mtu + d for b in bearers for d in (-4, -3, -2, 0)] + [512, 1]) for _ in range(n_ind)]
         indicating = [b for b in bearers if subscribed[b] & 2]
@@ -660,6 +674,17 @@ async def notify_case(case, r: R):
             pending = [b for b in indicating if b.pairing.outstanding_indications > 0]
             if not pending:
                 break
+            # an enhanced bearer that has nothing outstanding is closed by the client while an indication is
+            # outstanding on another bearer of the same link: that one's bookkeeping must not be touched
+            idle_eatt = [b for b in bearers if b.kind == 'eatt' and not b.dead and b.pairing.outstanding_indications == 0
+                         and b not in indicating]
+            if _round == 0 and idle_eatt and hs.fixed in pending and rng.random() < 0.6:
+                victim = rng.choice(idle_eatt)
+                victim.pairing.close(r, hs.ctx + ' (before the client closed this enhanced bearer)')
+                victim.close()
+                closed_bearers.append(victim)
+                r.ev('eatt_bearer_closed_during_outstanding_indication')
+                await hs.rg.quiesce()
             # a request while an indication is outstanding must still be answered
             if rng.random() < 0.6:
                 b = rng.choice(bearers)
